@@ -88,6 +88,9 @@ pub struct Plan {
     /// after `read`, keep reading (with the last size) until a read returns 0
     #[serde(default)]
     pub to_eof: bool,
+    /// stop reading once this many bytes have been read in total (read sizes are clipped)
+    #[serde(default)]
+    pub upto: Option<usize>,
     #[serde(default)]
     pub delay_ns: u64,
     /// do not start before the controller has opened this phase (answer-after-drop, C20)
